@@ -121,6 +121,13 @@ func (a *Act) doCall(st *State, com *ssa.CallCommon, pos tokenPos, site ssa.Valu
 		if a.isPureFnValue(com.Value) {
 			return a.applyPure(a.term(com.Value), args, sig)
 		}
+		if name, ok := a.fieldOf(com.Value); ok && a.top.fc != nil {
+			for _, pn := range a.top.fc.Pure {
+				if pn == name {
+					return a.applyPure(a.term(com.Value), args, sig)
+				}
+			}
+		}
 		if name, ok := a.assumedCallback(com.Value); ok {
 			a.u.Trusted["assumed: callback "+name+" does not touch the modelled heap ("+fnName(a.fn)+")"] = true
 			res := a.freshResult(st, sig)
@@ -221,6 +228,18 @@ func (a *Act) havocAll(st *State) {
 func (a *Act) invoke(st *State, com *ssa.CallCommon, pos tokenPos) Val {
 	sig := com.Signature()
 	name := com.Method.Name()
+	if fc := a.top.fc; fc != nil {
+		for _, c := range fc.Callbacks {
+			if c == name {
+				a.u.Trusted["assumed: interface method "+name+" does not touch the modelled heap ("+fnName(a.fn)+")"] = true
+				res := a.freshResult(st, sig)
+				if fc.CallbackRank != nil {
+					a.traceEvent(st, fc, name, a.argVals(com), pos, res, sig)
+				}
+				return res
+			}
+		}
+	}
 	recvT := com.Value.Type()
 	full := shortType(recvT) + "." + name
 	if in, ok := invokeIntrinsics[full]; ok {
@@ -492,21 +511,29 @@ func mentions(e Expr, names map[string]bool) bool {
 	return false
 }
 
+// fieldOf: the value is loaded from a struct field (x.F, or the field F of a struct value).
+func (a *Act) fieldOf(v ssa.Value) (string, bool) {
+	switch x := v.(type) {
+	case *ssa.UnOp:
+		if fa, ok := x.X.(*ssa.FieldAddr); ok {
+			return fieldName(derefType(fa.X.Type()), fa.Field), true
+		}
+	case *ssa.Field:
+		return fieldName(x.X.Type(), x.Field), true
+	}
+	return "", false
+}
+
 // assumedCallback: the called value is loaded from a field declared "callback" in the contract.
 func (a *Act) assumedCallback(v ssa.Value) (string, bool) {
 	fc := a.top.fc
 	if fc == nil || len(fc.Callbacks) == 0 {
 		return "", false
 	}
-	ld, ok := v.(*ssa.UnOp)
+	name, ok := a.fieldOf(v)
 	if !ok {
 		return "", false
 	}
-	fa, ok := ld.X.(*ssa.FieldAddr)
-	if !ok {
-		return "", false
-	}
-	name := fieldName(derefType(fa.X.Type()), fa.Field)
 	for _, c := range fc.Callbacks {
 		if c == name {
 			return name, true
@@ -602,6 +629,20 @@ func (a *Act) traceEvent(st *State, fc *FuncContract, name string, args []Val, p
 			v = args[i].Loc.Ref
 		}
 		st.setHeap(h, traceSorts[h], store(st.heap(h, traceSorts[h]), ln, v))
+	}
+	// every argument is also recorded in an array of its own sort
+	for j, av := range args {
+		if av.Loc != nil || av.Tuple != nil || av.T == "" {
+			continue
+		}
+		key := fmt.Sprintf("%s_%d", name, j)
+		if a.u.traceArgType == nil {
+			a.u.traceArgType = map[string]types.Type{}
+		}
+		a.u.traceArgType[key] = av.Typ
+		h := "T_arg_" + key
+		hs := "(Array Int " + a.u.D.SortOf(av.Typ) + ")"
+		st.setHeap(h, hs, store(st.heap(h, hs), ln, av.T))
 	}
 	// did the callback report an error? (last result of interface type)
 	failed := Term("false")
